@@ -148,6 +148,14 @@ static void op_c12_cmd(Exec& x, const Json& op, int)
 						}
 					}
 				}
+				// a recorded file that was missing and that fix started to re-create before it stopped on a fatal error (it then
+				// reports nothing): creating the files the content records is what fix does; what they hold is C05's business
+				if (!ok && kv.second == "added" && after.at(p).type == 'f' && r.exit_code != 0) {
+					std::vector<LoadedContent> lcs = load_contents(x.sb);
+					const LoadedContent* l = first_good(lcs);
+					if (l) for (auto& f : l->c.files) { const DiskCfg* d = x.sb.disk(l->c.maps[f.map_idx].name); if (d && d->top + "/" + f.sub == p) ok = true; }
+					if (ok) x.probe("c12.recorded_file_created_by_aborted_fix");
+				}
 				// a file renamed to .unrecoverable
 				if (!ok && ends_with(p, ".unrecoverable") && fixed_files.count(p.substr(0, p.size() - 14))) ok = true;
 				// ... and back: a fix that comes to a missing file whose .unrecoverable remains of an earlier attempt exist renames
